@@ -287,12 +287,12 @@ func c04Run(c c04Case) (fail *vlib.Failure, rs c04Stats) {
 var (
 	c04P4   = []int{0, 1, 255, 256, 509, 510}
 	c04Pn   = []int{0, 1, 2, 510, 511}
-	c04Bits = []uint64{1 << 1, 1 << 2, 1 << 3, 1 << 4, 1 << 8, 1 << 9, 1 << 63}
+	c04Bits = []uint64{1 << 1, 1 << 2, 1 << 3, 1 << 4, 1 << 8, 1 << 9, 1 << 63, 1 << 5, 1 << 6, 1 << 7}
 )
 
 func c04GenFlags(t *rapid.T) uint64 {
 	f := uint64(1)
-	mask := rapid.IntRange(0, 127).Draw(t, "flagmask")
+	mask := rapid.IntRange(0, 1023).Draw(t, "flagmask")
 	for i, b := range c04Bits {
 		if mask&(1<<uint(i)) != 0 {
 			f |= b
